@@ -5,7 +5,9 @@ package receiver
 import (
 	"context"
 	"errors"
+	"io"
 	"sync"
+	"time"
 
 	"github.com/PowerDNS/lightningstream/config"
 	zz "github.com/PowerDNS/lightningstream/internal/zzverif"
@@ -302,4 +304,74 @@ func VerifC16Concurrent() {
 	zz.Assert(delivered == 3, "C16/concurrent/every-instance-delivered")
 	zz.Assert(vHeld(r, true, limDl) == 0 && vHeld(r, false, limDec) == 0, "C16/concurrent/all-tokens-returned")
 	zz.Reach("C16/concurrent/done")
+}
+
+// vLogHook runs fn when a log line with the given message is emitted (natively; under the
+// engine logrus is a stub and the scheduler explores the interleavings instead).
+type vLogHook struct {
+	msg string
+	fn  func()
+}
+
+func (h vLogHook) Levels() []logrus.Level { return logrus.AllLevels }
+func (h vLogHook) Fire(e *logrus.Entry) error {
+	if e.Message == h.msg {
+		h.fn()
+	}
+	return nil
+}
+
+// VerifC16Vanish (thread mode, the real Downloader.Run goroutines): all snapshots of an instance
+// vanish from the bucket while its downloader is still busy with the old one (the download
+// fails), a listing reflects that, then the instance publishes again. The re-published
+// snapshot is delivered whatever the interleaving of the listings with the downloader.
+// Natively the interleaving the engine reports is the one where the second listing lands
+// right after the downloader found the instance gone; the log line at that point is used to
+// hold the downloader there (choreography for the replay only).
+func VerifC16Vanish() {
+	lg := logrus.New()
+	lg.SetOutput(io.Discard)
+	lg.SetLevel(logrus.WarnLevel)
+	gone := make(chan struct{}, 1)
+	lg.AddHook(vLogHook{msg: "this instance no longer has any snapshots", fn: func() {
+		select {
+		case gone <- struct{}{}:
+		default:
+		}
+		time.Sleep(50 * time.Millisecond)
+	}})
+	b := &vBucket{}
+	c := config.Config{MemoryDecompressedSnapshots: 3, MemoryDownloadedSnapshots: 3}
+	r := New(b, c, "db", lg, "own", events.New(), hooks.New())
+	ctx := &vtCtx{done: make(chan struct{})}
+	bg := context.Background()
+	b.Store(bg, vName("a", 1), vGoodBlob("a"))
+	got := map[string]string{}
+	drain := func() {
+		for {
+			inst, upd := r.Next()
+			if inst == "" {
+				return
+			}
+			got[inst] = upd.NameInfo.FullName
+			upd.Close()
+		}
+	}
+	_ = r.RunOnce(ctx, false) // a/1 seen, its downloader started and notified
+	b.Delete(bg, vName("a", 1))
+	_ = r.RunOnce(ctx, false) // instance a is gone from the listing
+	zz.NativeWait(gone, 500*time.Millisecond)
+	b.Store(bg, vName("a", 2), vGoodBlob("a"))
+	_ = r.RunOnce(ctx, false) // instance a is back with a new snapshot
+	for round := 0; round < 2; round++ {
+		zz.Settle()
+		drain()
+		_ = r.RunOnce(ctx, false)
+	}
+	zz.Settle()
+	drain()
+	zz.Assert(got["a"] == vName("a", 2), "C16/vanish/republished-snapshot-delivered")
+	close(ctx.done)
+	zz.WaitThreads("C16/vanish/downloaders-exit-on-cancel")
+	zz.Reach("C16/vanish/done")
 }
